@@ -1116,12 +1116,13 @@ impl GenericIfData {
     ) -> Result<Option<T>, &'static str> {
         match self {
             GenericIfData::TaggedStruct(taggeditems) | GenericIfData::TaggedUnion(taggeditems) => {
-                if let Some(itemlist) = taggeditems.get(tag) {
+                // a tag that is present with an empty list of items has no occurrence, like an absent tag
+                if let Some(item) = taggeditems.get(tag).and_then(|itemlist| itemlist.first()) {
                     Ok(Some(func(
-                        &itemlist[0].data,
-                        itemlist[0].uid,
-                        itemlist[0].start_offset,
-                        itemlist[0].end_offset,
+                        &item.data,
+                        item.uid,
+                        item.start_offset,
+                        item.end_offset,
                     )?))
                 } else {
                     Ok(None)
